@@ -323,20 +323,24 @@ type linIn struct {
 	Ver  int
 }
 
-type linState [2]int
+// linState: per file the current version and, between the disk write and the invalidation that
+// tells the loader about it, the pending version (-1 = none). The server cannot know that a file
+// changed on disk before it is notified, so a loader read inside that window may return either.
+type linState struct {
+	Cur  [2]int
+	Pend [2]int
+}
 
 // Two independent objects are observed: the workspace view (both files read atomically under
-// its lock) and the loader's view of one included file. A server-side update touches them one
-// after the other (disk, workspace, loader cache), so it is recorded as two write operations
-// with their own call/return intervals. P-compositionality: the histories of the two objects
-// (and of the two files in the loader) are checked separately.
+// its lock) and the loader's view of one included file. P-compositionality: the histories of the
+// two objects (and of the two files in the loader) are checked separately.
 var linModel = porcupine.Model{
 	Partition: func(history []porcupine.Operation) [][]porcupine.Operation {
 		parts := map[string][]porcupine.Operation{}
 		for _, o := range history {
 			in := o.Input.(linIn)
 			k := "ws"
-			if in.Kind == "writeLD" || in.Kind == "readOne" {
+			if in.Kind == "diskWrite" || in.Kind == "invalidate" || in.Kind == "readOne" {
 				k = fmt.Sprintf("ld%d", in.File)
 			}
 			parts[k] = append(parts[k], o)
@@ -349,27 +353,37 @@ var linModel = porcupine.Model{
 		}
 		return out
 	},
-	Init: func() interface{} { return linState{0, 0} },
+	Init: func() interface{} { return linState{Cur: [2]int{0, 0}, Pend: [2]int{-1, -1}} },
 	Step: func(state, input, output interface{}) (bool, interface{}) {
 		st := state.(linState)
 		in := input.(linIn)
 		switch in.Kind {
-		case "writeWS", "writeLD":
-			st[in.File] = in.Ver
+		case "writeWS":
+			st.Cur[in.File] = in.Ver
+			return true, st
+		case "diskWrite":
+			st.Pend[in.File] = in.Ver
+			return true, st
+		case "invalidate":
+			st.Cur[in.File] = in.Ver
+			st.Pend[in.File] = -1
 			return true, st
 		case "readAll":
-			return output.(linState) == st, st
+			return output.([2]int) == st.Cur, st
 		default:
-			return output.(int) == st[in.File], st
+			v := output.(int)
+			return v == st.Cur[in.File] || (st.Pend[in.File] >= 0 && v == st.Pend[in.File]), st
 		}
 	},
 	DescribeOperation: func(input, output interface{}) string {
 		in := input.(linIn)
 		switch in.Kind {
 		case "writeWS":
-			return fmt.Sprintf("workspace.write(f%d,v%d)", in.File, in.Ver)
-		case "writeLD":
-			return fmt.Sprintf("loader.write(f%d,v%d)", in.File, in.Ver)
+			return fmt.Sprintf("workspace.update(f%d,v%d)", in.File, in.Ver)
+		case "diskWrite":
+			return fmt.Sprintf("disk.write(f%d,v%d)", in.File, in.Ver)
+		case "invalidate":
+			return fmt.Sprintf("loader.invalidate(f%d,v%d)", in.File, in.Ver)
 		case "readAll":
 			return fmt.Sprintf("workspace.readAll()->%v", output)
 		}
@@ -383,8 +397,8 @@ func linContent(f, ver int) string {
 	return fmt.Sprintf("account v:%d:%d\n\n2019-01-01 marker\n    v:%d:%d  1 USD\n    assets:cash\n", f, ver, f, ver)
 }
 
-func versionsFromNames(names []string) linState {
-	st := linState{-1, -1}
+func versionsFromNames(names []string) [2]int {
+	st := [2]int{-1, -1}
 	for _, n := range names {
 		if m := markerRe.FindStringSubmatch(n); m != nil {
 			f, _ := strconv.Atoi(m[1])
@@ -434,17 +448,19 @@ func c14Lin(c *Ctx, idx int64) {
 		mu.Unlock()
 	}
 	doWrite := func(f, ver int) {
-		callLD := atomic.AddInt64(&clock, 1)
 		content := linContent(f, ver)
 		// atomic replace: a reader sees the old or the new file, never a truncated one
 		tmp := paths[f] + ".tmp"
 		os.WriteFile(tmp, []byte(content), 0o644)
+		callD := atomic.AddInt64(&clock, 1)
 		os.Rename(tmp, paths[f])
+		record(0, linIn{Kind: "diskWrite", File: f, Ver: ver}, callD, nil)
 		callWS := atomic.AddInt64(&clock, 1)
 		ws.UpdateFile(paths[f], content)
 		record(0, linIn{Kind: "writeWS", File: f, Ver: ver}, callWS, nil)
+		callI := atomic.AddInt64(&clock, 1)
 		loader.InvalidateFile(paths[f])
-		record(100, linIn{Kind: "writeLD", File: f, Ver: ver}, callLD, nil)
+		record(0, linIn{Kind: "invalidate", File: f, Ver: ver}, callI, nil)
 	}
 	readers := []func(client int, rr *RNG){
 		func(client int, rr *RNG) {
